@@ -1,6 +1,319 @@
 package main
 
-// replay: turn a refuted obligation's model into a concrete run of the real code (per-property drivers).
-func replay(vdir, repo, prop, name string, o *Obligation) (bool, map[string]interface{}) {
-	return false, map[string]interface{}{"status": "no replay driver for this obligation"}
+// replay: turn a refuted obligation's model into a concrete run of the real code.
+// The model values of the function's inputs (flattened leaves of the contract variables) are
+// written to a JSON file; a per-property driver test (verif/replay/<id>/*_test.go) is injected
+// into the package with `go test -overlay` and re-checks the clause on the real code.
+
+import (
+	"context"
+	"encoding/hex"
+	"encoding/json"
+	"fmt"
+	"go/types"
+	"os"
+	"os/exec"
+	"path/filepath"
+	"sort"
+	"strings"
+	"time"
+)
+
+type replayVar struct {
+	Name string
+	T    *Term
+	Type string
 }
+
+// flatten contract variables (parameters, lets, aux) into scalar leaves
+func (st *State) flattenVars(vars map[string]Value) []replayVar {
+	var out []replayVar
+	var rec func(name string, v Value, depth int)
+	rec = func(name string, v Value, depth int) {
+		if depth > 6 {
+			return
+		}
+		switch x := v.(type) {
+		case Scalar:
+			out = append(out, replayVar{Name: name, T: x.T})
+		case Struct:
+			tn := ""
+			if x.N != nil {
+				tn = typeKey(x.N)
+			}
+			out = append(out, replayVar{Name: name + "#type", T: Str(tn)})
+			for i := 0; i < x.T.NumFields(); i++ {
+				rec(name+"."+x.T.Field(i).Name(), st.fieldOf(x, i), depth+1)
+			}
+		case Slice:
+			if isByte(x.Elem) {
+				if s, err := st.sliceBytes(x); err == nil {
+					out = append(out, replayVar{Name: name, T: s})
+				}
+			}
+			out = append(out, replayVar{Name: name + "#nil", T: Eq(x.Back, Int(0))})
+		case Ptr:
+			if len(x.Path) == 0 {
+				out = append(out, replayVar{Name: name + "#nil", T: Eq(x.H, Int(0))})
+			}
+		case Iface:
+			if x.Dyn == nil {
+				out = append(out, replayVar{Name: name + "#tid", T: x.Tid})
+			}
+		}
+	}
+	var names []string
+	for k := range vars {
+		names = append(names, k)
+	}
+	sort.Strings(names)
+	for _, k := range names {
+		if k == "self" {
+			continue
+		}
+		rec(k, vars[k], 0)
+	}
+	return out
+}
+
+// ---- s-expression parsing of (get-value ...) output
+
+type sexp struct {
+	atom string
+	list []*sexp
+	str  bool
+}
+
+func parseSexp(s string) []*sexp {
+	var stack [][]*sexp
+	cur := []*sexp{}
+	i := 0
+	for i < len(s) {
+		c := s[i]
+		switch {
+		case c == '(':
+			stack = append(stack, cur)
+			cur = []*sexp{}
+			i++
+		case c == ')':
+			if len(stack) == 0 {
+				return cur
+			}
+			l := &sexp{list: cur}
+			cur = append(stack[len(stack)-1], l)
+			stack = stack[:len(stack)-1]
+			i++
+		case c == '"':
+			j := i + 1
+			var sb strings.Builder
+			for j < len(s) {
+				if s[j] == '"' {
+					if j+1 < len(s) && s[j+1] == '"' {
+						sb.WriteByte('"')
+						j += 2
+						continue
+					}
+					break
+				}
+				sb.WriteByte(s[j])
+				j++
+			}
+			cur = append(cur, &sexp{atom: sb.String(), str: true})
+			i = j + 1
+		case c == '|':
+			j := strings.IndexByte(s[i+1:], '|')
+			if j < 0 {
+				return cur
+			}
+			cur = append(cur, &sexp{atom: s[i : i+j+2]})
+			i += j + 2
+		case c == ' ' || c == '\n' || c == '\t' || c == '\r':
+			i++
+		default:
+			j := i
+			for j < len(s) && !strings.ContainsRune("() \n\t\r", rune(s[j])) {
+				j++
+			}
+			cur = append(cur, &sexp{atom: s[i:j]})
+			i = j
+		}
+	}
+	return cur
+}
+
+// SMT-LIB string literal body with \u{X} escapes -> bytes
+func smtUnescape(s string) []byte {
+	var out []byte
+	for i := 0; i < len(s); {
+		if strings.HasPrefix(s[i:], "\\u{") {
+			j := strings.IndexByte(s[i:], '}')
+			if j > 0 {
+				var v int
+				fmt.Sscanf(s[i+3:i+j], "%x", &v)
+				out = append(out, byte(v))
+				i += j + 1
+				continue
+			}
+		}
+		if strings.HasPrefix(s[i:], "\\u") && i+6 <= len(s) {
+			var v int
+			if _, err := fmt.Sscanf(s[i+2:i+6], "%x", &v); err == nil {
+				out = append(out, byte(v))
+				i += 6
+				continue
+			}
+		}
+		out = append(out, s[i])
+		i++
+	}
+	return out
+}
+
+func sexpValue(e *sexp) interface{} {
+	if e.str {
+		return map[string]string{"hex": hex.EncodeToString(smtUnescape(e.atom))}
+	}
+	if e.list != nil {
+		if len(e.list) == 2 && e.list[0].atom == "-" {
+			return "-" + e.list[1].atom
+		}
+		return "?"
+	}
+	switch e.atom {
+	case "true":
+		return true
+	case "false":
+		return false
+	}
+	return e.atom
+}
+
+// modelValues: ask the answering back end for the values of the replay variables
+func modelValues(o *Obligation, be string, ms int) (map[string]interface{}, string) {
+	if len(o.Replay) == 0 {
+		return nil, ""
+	}
+	data, err := os.ReadFile(o.File)
+	if err != nil {
+		return nil, ""
+	}
+	var sb strings.Builder
+	// declare symbols that occur only in replay terms
+	extra := map[string]string{}
+	for _, rv := range o.Replay {
+		collectSyms(rv.T, map[string]bool{}, extra)
+	}
+	script := string(data)
+	idx := strings.Index(script, "(assert")
+	if idx < 0 {
+		idx = len(script)
+	}
+	var decl strings.Builder
+	for _, k := range sortedKeys(extra) {
+		if !strings.Contains(script, extra[k]) {
+			decl.WriteString(extra[k] + "\n")
+		}
+	}
+	sb.WriteString(script[:idx])
+	sb.WriteString(decl.String())
+	sb.WriteString(script[idx:])
+	sb.WriteString("(get-value (")
+	for _, rv := range o.Replay {
+		sb.WriteString(rv.T.String())
+		sb.WriteString(" ")
+	}
+	sb.WriteString("))\n")
+	mf := strings.TrimSuffix(o.File, ".smt2") + ".values.smt2"
+	os.WriteFile(mf, []byte(sb.String()), 0o644)
+	var out string
+	for _, b := range backends {
+		if b.name == be {
+			r := runBackend(context.Background(), b, mf, ms)
+			out = r.output
+		}
+	}
+	lines := strings.SplitN(out, "\n", 2)
+	if len(lines) < 2 || strings.TrimSpace(lines[0]) != "sat" {
+		return nil, out
+	}
+	top := parseSexp(lines[1])
+	if len(top) == 0 || top[0].list == nil {
+		return nil, out
+	}
+	vals := map[string]interface{}{}
+	for i, pair := range top[0].list {
+		if i >= len(o.Replay) || pair.list == nil || len(pair.list) < 2 {
+			break
+		}
+		vals[o.Replay[i].Name] = sexpValue(pair.list[len(pair.list)-1])
+	}
+	return vals, out
+}
+
+// replay runs the property's driver test against /repo with the model's inputs.
+func replay(vdir, repo, prop, name string, o *Obligation) (bool, map[string]interface{}) {
+	info := map[string]interface{}{}
+	vals, raw := modelValues(o, o.Backend, 30000)
+	if vals == nil {
+		info["status"] = "no model values obtained"
+		info["solver_output"] = raw
+		return false, info
+	}
+	info["inputs"] = vals
+	driverDir := filepath.Join(vdir, "replay", prop)
+	drivers, _ := filepath.Glob(filepath.Join(driverDir, "*_test.go.tmpl"))
+	if len(drivers) == 0 {
+		info["status"] = "no replay driver for this property"
+		return false, info
+	}
+	// which package? first line of the driver: // package-dir: pkg/...
+	var ran, confirmed bool
+	for _, d := range drivers {
+		src, _ := os.ReadFile(d)
+		first := strings.SplitN(string(src), "\n", 2)[0]
+		if !strings.HasPrefix(first, "// package-dir: ") {
+			continue
+		}
+		pkgDir := strings.TrimSpace(strings.TrimPrefix(first, "// package-dir: "))
+		if o.PkgDir != "" && o.PkgDir != pkgDir {
+			continue
+		}
+		in := map[string]interface{}{"property": prop, "obligation": name, "function": o.Func, "clause": o.Clause, "kind": o.Kind, "values": vals}
+		inFile := strings.TrimSuffix(o.File, ".smt2") + ".replay-input.json"
+		b, _ := json.MarshalIndent(in, "", " ")
+		os.WriteFile(inFile, b, 0o644)
+		target := filepath.Join(repo, pkgDir, "zz_verif_replay_test.go")
+		ov := map[string]interface{}{"Replace": map[string]string{target: d}}
+		ovFile := strings.TrimSuffix(o.File, ".smt2") + ".overlay.json"
+		ob, _ := json.Marshal(ov)
+		os.WriteFile(ovFile, ob, 0o644)
+		ctx, cancel := context.WithTimeout(context.Background(), 180*time.Second)
+		cmd := exec.CommandContext(ctx, "go", "test", "-overlay", ovFile, "-vet=off", "-timeout", "60s", "-count=1", "-run", "TestVerifReplay", "./"+pkgDir)
+		cmd.Dir = repo
+		cmd.Env = append(os.Environ(), "GOFLAGS=-mod=mod", "GOPROXY=off", "GOSUMDB=off", "GOTOOLCHAIN=local", "VERIF_REPLAY_INPUT="+inFile)
+		out, err := cmd.CombinedOutput()
+		cancel()
+		ran = true
+		so := string(out)
+		if len(so) > 4000 {
+			so = so[len(so)-4000:]
+		}
+		info["replay_cmd"] = strings.Join(cmd.Args, " ") + "  (cwd " + repo + ", VERIF_REPLAY_INPUT=" + inFile + ")"
+		info["replay_output"] = so
+		if err != nil && strings.Contains(string(out), "REPLAY-CONFIRMED") {
+			confirmed = true
+		}
+		break
+	}
+	switch {
+	case confirmed:
+		info["status"] = "confirmed on the real code"
+	case ran:
+		info["status"] = "model did not reproduce on the real code (or the driver has no case for this clause)"
+	default:
+		info["status"] = "no replay driver for this function's package"
+	}
+	return confirmed, info
+}
+
+var _ = types.Typ
